@@ -96,6 +96,12 @@ theorem handle_simE (k : Consts) (m : List String) (kw : CKw) (a b : State) (h :
   | actionx x => exact h
   | endactio => exact h
   | compord c => exact h
+  | msw o =>
+    simp only [handle]
+    rw [h.sim.p]
+    cases segStep b.p o with
+    | error e => exact rfl
+    | ok sm => exact ⟨⟨rfl, h.sim.c, h.sim.st⟩, h.ev⟩
 
 theorem runBody_simE (k : Consts) (body : List CKw) (a b : State) (h : SimE a b) :
     ExRel SimE (runBody k a body) (runBody k b body) := by
@@ -143,6 +149,18 @@ theorem runKws_simE (k : Consts) (kws : List CKw) (acc : Option (String × List 
           | ok b' => rw [ha, hb] at this; exact ih _ a' b' this
       | endactio => simp only [runKws, handle]; exact ih _ a b h
       | compord c => simp only [runKws, handle]; exact ih _ a b h
+      | msw o =>
+        simp only [runKws]
+        have := handle_simE k [] (.msw o) a b h
+        cases ha : handle k [] a (.msw o) with
+        | error e =>
+          cases hb : handle k [] b (.msw o) with
+          | error e' => rw [ha, hb] at this; exact this
+          | ok b' => rw [ha, hb] at this; exact this.elim
+        | ok a' =>
+          cases hb : handle k [] b (.msw o) with
+          | error e' => rw [ha, hb] at this; exact this.elim
+          | ok b' => rw [ha, hb] at this; exact ih _ a' b' this
     | some v =>
       obtain ⟨n, ac⟩ := v
       cases kw with
@@ -150,6 +168,7 @@ theorem runKws_simE (k : Consts) (kws : List CKw) (acc : Option (String × List 
       | ops n' rs => simp only [runKws]; exact ih _ a b h
       | actionx n' => simp only [runKws]; exact ih _ a b h
       | compord c => simp only [runKws]; exact rfl
+      | msw o => simp only [runKws]; exact ih _ a b h
 
 theorem endReport_simE (a b : State) (h : SimE a b) : SimE (endReport a) (endReport b) := by
   refine ⟨endReport_sim a b h.sim, ?_⟩
@@ -286,7 +305,7 @@ theorem applyAction_simE_inline_closed (k : Consts) (a : List (List CKw)) (blk :
 
 /-- `SimE` states with equal markers print the same full observation record. -/
 theorem showFull_congr (a b : State) (h : SimE a b) (hm : a.mark = b.mark) : showFull a = showFull b := by
-  unfold showFull showEv
+  unfold showFull showEv showSegs
   rw [showState_congr a b h.sim hm, h.sim.p, h.ev]
 
 end OpmVerif.Sched
